@@ -36,6 +36,10 @@ def logical_configs():
                                 dict(window={'starting': 100, 'ending': 200}, region=None, streams={'sal': {'qartod': {'spike_test': sp}}, 'temp': {'qartod': {'spike_test': sp}}})]
     out['no-window-twice'] = [dict(window=None, region=region, streams={'temp': {'qartod': {'gross_range_test': gr}}}),
                               dict(window=None, region=region, streams={'sal': {'qartod': {'spike_test': sp}}})]
+    square = {'type': 'Feature', 'geometry': {'type': 'Polygon', 'coordinates': [[[0, 0], [2, 0], [2, 2], [0, 2], [0, 0]]]}}
+    triangle = {'type': 'Feature', 'geometry': {'type': 'Polygon', 'coordinates': [[[0, 0], [2, 0], [2, 2], [0, 0]]]}}
+    out['regions-sharing-a-bounding-box'] = [dict(window={'starting': 100, 'ending': 200}, region=square, streams={'temp': {'qartod': {'gross_range_test': gr}}}),
+                                             dict(window={'starting': 100, 'ending': 200}, region=triangle, streams={'temp': {'qartod': {'spike_test': sp}}})]
     out['windowed'] = [dict(window={'starting': 100, 'ending': 200}, region=None, streams={'temp': {'qartod': {'gross_range_test': gr}}})]
     out['ending-only-window'] = [dict(window={'ending': 200}, region=None, streams={'temp': {'qartod': {'gross_range_test': gr}}})]
     out['window-ending-first'] = [dict(window=collections.OrderedDict([('ending', 200), ('starting', 100)]), region=None, streams={'temp': {'qartod': {'gross_range_test': gr}}}),
@@ -176,9 +180,15 @@ def run(ck):
             want = expected_calls(contexts, lname)
             for cname, src in carriers(mapping):
                 label = f'Config({name} as {lname} via {cname})'
+                before = repr(src) if cname in ('dict', 'OrderedDict') else None
                 out = r.run(Config, [src])
                 ck.count(1, distinct=(name, lname, cname))
                 check_outcome(ck, label, name, lname, cname, out, want)
+                if before is not None:
+                    # the caller's mapping is only read: it means the same thing when it is used again
+                    ck.ob('C07.source', label, repr(src) == before, key=f'Config:{cname}:source-object-modified',
+                          what=f'{label}: Config modified the mapping it was given (before {before[:150]} ... after {repr(src)[:150]})')
+                    check_outcome(ck, label + ' [same object, second use]', name, lname, cname, r.run(Config, [src]), want)
         # per-variable xarray attributes (single, windowless context)
         if len(contexts) == 1 and contexts[0]['window'] is None and contexts[0]['region'] is None:
             want = expected_calls(contexts, 'stream-mapping')
@@ -234,6 +244,30 @@ def run(ck):
     ck.floor('C07.calls', 300)
 
 
+def check_grouping(ck, label, key_base, inst, want):
+    """Config.contexts (what every stream front end iterates): one group per configured (window, region); every call sits in the group of
+    its own context"""
+    it = ck.runner.interp
+    from ..interp import AbsRaise
+    try:
+        groups = it.getattr(inst, 'contexts', None)
+    except AbsRaise as e:
+        ck.violate('C07.groups', f'{key_base}:contexts-raises-{e.exc.tname}', f'{label}: Config.contexts raises {e.exc.tname}{e.exc.args}')
+        return
+    items = list(groups.dict_data.items()) if hasattr(groups, 'dict_data') else list(groups.items())
+
+    def ident(ctx):
+        w = ctx.attrs['window']
+        region = ctx.attrs['region']
+        return ((w.starting, w.ending), None if region is None else it.getattr(region, 'wkb', None))
+    stray = [(ident(k), ident(c.attrs['context'])) for k, calls in items for c in calls if ident(c.attrs['context']) != ident(k)]
+    ck.ob('C07.groups', label, not stray, key=f'{key_base}:call-grouped-under-another-context',
+          what=f'{label}: Config.contexts lists a call under a context that is not its own (group {stray[:1]})')
+    n_want = len({(c[4], c[5]) for c in want})
+    ck.ob('C07.groups', label + ' group count', len(items) == n_want, key=f'{key_base}:context-groups',
+          what=f'{label}: Config.contexts has {len(items)} groups, the configuration has {n_want} distinct (window, region) contexts')
+
+
 def check_outcome(ck, label, name, lname, cname, out, want):
     key_base = f'Config:{name}:{lname}'
     if out.kind == 'raise':
@@ -245,6 +279,7 @@ def check_outcome(ck, label, name, lname, cname, out, want):
         ck.violate('C07.calls', f'{key_base}:malformed', f'{label}: malformed calls ({e})')
         return
     if got == want:
+        check_grouping(ck, label, key_base, out.value, want)
         ck.hold('C07.calls', label)
         if len(ck.samples) < 5:
             ck.sample(dict(source=label, calls=[f'{c[0]}:{c[1]}.{c[2]}' for c in got]))
